@@ -50,6 +50,8 @@ def dag_programs(
     allow_nullary: bool = True,
     cache: bool = False,
     consistent_ignored_defaults: bool = False,
+    shuffle_names: bool = False,
+    allow_none: bool = False,
 ):
     n_roots = draw(st.integers(1, 4))
     roots = [f"r{i}" for i in range(n_roots)]
@@ -73,7 +75,8 @@ def dag_programs(
             pool.remove(p)
             params.append(p)
         n_out = draw(st.sampled_from([1, 1, 1, 2])) if allow_multi else 1
-        outs = [f"o{f}" + ("ab"[q] if n_out > 1 else "") for q in range(n_out)]
+        tag = draw(st.sampled_from("oabxyz")) if shuffle_names else "o"  # name order != dependency order
+        outs = [f"{tag}{f}" + ("ab"[q] if n_out > 1 else "") for q in range(n_out)]
         orig = [p if not (allow_renames and draw(st.integers(0, 3)) == 0) else f"q{i}" for i, p in enumerate(params)]
         orig_outs = [o if not (allow_renames and draw(st.integers(0, 5)) == 0) else f"raw_{o}" for o in outs]
         sig_defaults, pf_defaults, bound = {}, {}, {}
@@ -102,6 +105,7 @@ def dag_programs(
                 "bound": bound,
                 "picker": picker,
                 "cache": bool(cache and draw(st.booleans())),
+                "ret_none": bool(allow_none and n_out == 1 and draw(st.integers(0, 5)) == 0),
             }
         )
         names += outs
@@ -113,8 +117,31 @@ def dag_programs(
 # tracer bodies
 
 
+class Opaque:
+    """An unhashable argument value whose str()/repr() hide its content (equal text, different values)."""
+
+    __hash__ = None  # type: ignore[assignment]
+
+    def __init__(self, payload) -> None:
+        self.payload = payload
+
+    def __eq__(self, other) -> bool:
+        return isinstance(other, Opaque) and other.payload == self.payload
+
+    def __repr__(self) -> str:
+        return "Opaque(...)"
+
+    def trace(self) -> str:
+        return f"Opaque<{self.payload}>"
+
+
+def tv(a) -> str:
+    """text of an argument inside tracer strings and logs"""
+    return a.trace() if hasattr(a, "trace") else str(a)
+
+
 def trace_value(fname: str, args: list, version: str = "") -> str:
-    return f"{fname}{version}[" + ";".join(str(a) for a in args) + "]"
+    return f"{fname}{version}[" + ";".join(tv(a) for a in args) + "]"
 
 
 def out_value(oname_orig: str, base: str) -> str:
@@ -133,14 +160,17 @@ def make_body(fn: dict, log, version: str = "", fail=None):
     orig_outs = list(fn["orig_outs"])
     picker = fn["picker"]
     fname = fn["name"]
+    ret_none = bool(fn.get("ret_none")) and len(outs) == 1
 
     def body(**kw):
         args = [kw[o] for o in orig]
         if log is not None:
-            log.append((fname, tuple(str(a) for a in args)))
+            log.append((fname, tuple(tv(a) for a in args)))
         if fail is not None:
             fail(fname, args)
         base = trace_value(fname, args, version)
+        if ret_none:
+            return None  # a (side-effect style) function that legitimately returns None
         if len(outs) == 1:
             return base
         if picker == "dict":
@@ -244,8 +274,10 @@ class DagModel:
                     raise Missing(p)
             base = trace_value(fn["name"], args, self._ver(fn["name"]))
             executed.append(fn["name"])
-            calls.append((fn["name"], tuple(str(a) for a in args)))
+            calls.append((fn["name"], tuple(tv(a) for a in args)))
             if len(fn["outs"]) == 1:
+                if fn.get("ret_none"):
+                    base = None
                 raw[fn["name"]] = base
                 memo[fn["outs"][0]] = base
             else:
